@@ -26,6 +26,9 @@ func (cp *CollectingProcess) startTCPServer() {
 			klog.Errorf("Cannot start tls collecting process on %s: %v", cp.address, err)
 			return
 		}
+		// The accept goroutine is registered before the address is published: a caller that
+		// waits for GetAddress() and then calls Stop() must not race with wg.Add().
+		cp.wg.Add(1)
 		cp.updateAddress(listener.Addr())
 		klog.Infof("Started TLS collecting process on %s", cp.netAddress)
 	} else {
@@ -35,11 +38,11 @@ func (cp *CollectingProcess) startTCPServer() {
 			klog.Errorf("Cannot start collecting process on %s: %v", cp.address, err)
 			return
 		}
+		cp.wg.Add(1)
 		cp.updateAddress(listener.Addr())
 		klog.Infof("Start TCP collecting process on %s", cp.netAddress)
 	}
 
-	cp.wg.Add(1)
 	go func(stopCh chan struct{}) {
 		defer cp.wg.Done()
 		for {
